@@ -19,6 +19,8 @@ type Prop struct {
 	// Record runs a seeded driver against the real code and writes an ndjson
 	// trace for TLC to validate; returns the number of traces written.
 	Record func(seed int64, n int, out string) (int, error)
+	// Finish, if set, is called after a replay run and may add to Summary.Extra.
+	Finish func(sum *hx.Summary)
 	// Extra modes (property specific): name -> func(args) exit code
 	Modes map[string]func(args []string) int
 }
@@ -55,6 +57,9 @@ func main() {
 			os.Exit(2)
 		}
 		sum := hx.RunReplay(f, p.Replay, *maxPerSig)
+		if p.Finish != nil {
+			p.Finish(sum)
+		}
 		if err := hx.WriteJSON(*out, sum); err != nil {
 			fmt.Fprintln(os.Stderr, err)
 			os.Exit(2)
